@@ -190,7 +190,7 @@ func (decWorld) Gen(prop, tier string, idx int, r *Rng) *Trace {
 				case "byz.members":
 					fo = Op{K: "fault", F: k, A: []int{30, 300, 3000, 12000}[r.Intn(4)]}
 				case "byz.profile":
-					fo = Op{K: "fault", F: k, A: r.Intn(14)}
+					fo = Op{K: "fault", F: k, A: r.Intn(20)}
 				case "byz.elements":
 					fo = Op{K: "fault", F: k, A: r.Intn(8), B: []int{20, 500, 3000, 20000, 60000}[r.Intn(5)], C: r.Intn(4)}
 				default:
